@@ -5,6 +5,7 @@ import Orx.GenThms.Vec
 import Orx.GenThms.Arr
 import Orx.IW.FullLedgerRun
 import Orx.GenThms.ProtoSim
+import Orx.GenThms.ProtoSimBuf
 /-! # C03 Chunk contract: non-empty, bounded, consecutive, exact length -/
 namespace Orx.Props.C03
 open Orx Orx.KS
@@ -120,5 +121,30 @@ theorem source_chunk_polls_bounded (n b : Nat) : satAdd b n - b ≤ n := GenThms
 theorem source_requests_are_the_translated_functions (k : Nat) :
     (∀ n, 1 ≤ n → GenThms.Proto.reqTree k (.chunk n) = GenThms.Proto.treeAt k (.resv (.chunk n))) :=
   GenThms.Proto.reqTree_chunk k
+
+
+/-- **The chunk's value iterator as in the source** (`BufferedIter::next` of buffered/iter.rs, translated): it takes the
+slot at `current_idx` while `current_idx < initial_len` and never touches a slot at or beyond `initial_len` — stale
+elements of earlier, partly consumed chunks behind the filled prefix are never handed out. -/
+theorem source_chunk_values_stop_at_initial_len {ρ' : Type} (k : Nat) (it : RSP.BufferedIter)
+    (h : ¬ it.current_idx < it.initial_len) :
+    (GenP.ChunkIt.next k it : RSP.PF ρ' _) = .ret (.norm (none, it)) := by
+  rw [GenThms.Proto.chunk_next_tree]; simp [h]
+
+theorem source_chunk_values_take_the_slot {ρ' : Type} (k : Nat) (it : RSP.BufferedIter) (v : Nat)
+    (h : it.current_idx < it.initial_len) (hv : it.values[it.current_idx]? = some (some v)) (hw : it.current_idx + 1 < W) :
+    (GenP.ChunkIt.next k it : RSP.PF ρ' _) =
+      .ret (.norm (some v, { it with values := it.values.set it.current_idx none, current_idx := it.current_idx + 1 })) := by
+  rw [GenThms.Proto.chunk_next_tree]; simp [h, hv, hw]
+
+/-- the buffered pull fills the first slots of the reused buffer and announces exactly the filled prefix -/
+theorem source_buffered_request_is_the_translated_function (F : Nat) (buf : List (Option Nat)) (l : Bool) :
+    GenThms.Proto.reqTreeB F buf = GenThms.Proto.treeAtB F F buf (.resv (.buffered buf.length l)) :=
+  GenThms.Proto.reqTreeB_eq F buf l
+
+theorem source_buffered_chunk_is_the_filled_prefix (b : Nat) (buf : List (Option Nat)) (acc : List Nat) :
+    GenThms.Proto.chunkOut b (GenThms.Proto.fillvals buf acc) acc.length =
+      match acc with | [] => .fin | v :: rest => .chunk b (v :: rest) :=
+  GenThms.Proto.chunkOut_fill b buf acc
 
 end Orx.Props.C03
